@@ -64,6 +64,10 @@ func (rd *GRIDDataElement) Copy() *GRIDDataElement {
 }
 
 func DataElementToGRID(d *gdbi.DataElement, g *Graph) (*GRIDDataElement, error) {
+	if d == nil {
+		//null element: outNull()/inNull(), undefined mark
+		return nil, nil
+	}
 	if d.To != "" {
 		Gid, _ := g.keyMap.GetEdgeKey(d.ID)
 		Label, _ := g.keyMap.GetLabelKey(d.Label)
